@@ -79,9 +79,9 @@ def shell_read_batch(shell, items, workdir):
             open(f, "wb").write(("set -- " + text + "\nfor a in \"$@\"; do printf '%s\\0' \"$a\"; done\n").encode("utf-8"))
             body = ". %s" % sh_quote_py(f)
         else:  # exec: run the script with `exec` shadowed by a function that prints its words
-            pre = ("exec() { printf 'W\\0'; for a in \"$@\"; do printf '%s\\0' \"$a\"; done; printf 'V\\0'; "
-                   + "printf '%s\\0' " + " ".join('"${%s-<unset>}"' % n for n in names) + "; }\n") if names else \
-                  "exec() { printf 'W\\0'; for a in \"$@\"; do printf '%s\\0' \"$a\"; done; printf 'V\\0'; }\n"
+            # the words are announced by their count, so that no value can be mistaken for a marker
+            pre = ("exec() { printf 'W\\0%s\\0' \"$#\"; for a in \"$@\"; do printf '%s\\0' \"$a\"; done; "
+                   + ("printf '%s\\0' " + " ".join('"${%s-<unset>}"' % n for n in names) + "; " if names else "") + "}\n")
             open(f, "wb").write((pre + text + "\n").encode("utf-8"))
             body = "bash %s" % sh_quote_py(f)
         parts.append("( %s ) 2>/dev/null; printf '\\0@@ITEM-END@@\\0'" % body)
@@ -110,12 +110,11 @@ def shell_read_batch(shell, items, workdir):
         elif kind == "flags":
             res.append({"words": fields})
         else:
-            if "W" not in fields or "V" not in fields:
+            if len(fields) < 2 or fields[0] != "W" or not fields[1].isdigit():
                 res.append(None)
                 continue
-            w = fields.index("W")
-            v = len(fields) - 1 - fields[::-1].index("V")
-            res.append({"words": fields[w + 1:v], "vars": list(zip(names, fields[v + 1:]))})
+            argc = int(fields[1])
+            res.append({"words": fields[2:2 + argc], "vars": list(zip(names, fields[2 + argc:]))})
     return res
 
 
